@@ -353,9 +353,80 @@ var c17Opts = modelOpts{
 	AllMinusThenPlus: true,
 }
 
+// c17Runs builds a file in which an untouched, commented function sits
+// between two runs of declarations that one change turns into declarations of
+// another kind (or removes): the alignment of the old and the new declaration
+// list has many non-matching neighbours to get through.
+func c17Runs(rt *rapid.T) *c17Case {
+	var b strings.Builder
+	b.WriteString("// Package runs is a C17 subject. c17_hdr\npackage runs\n\n")
+	n := 0
+	tok := func() string { n++; return fmt.Sprintf("c17_r%d", n) }
+	pad := func(k int, name string) {
+		for i := 0; i < k; i++ {
+			fmt.Fprintf(&b, "// %s%d is untouched. %s\nfunc %s%d() int {\n\treturn %d // %s\n}\n\n", name, i, tok(), name, i, i, tok())
+		}
+	}
+	run := func(k int, name string) {
+		for i := 0; i < k; i++ {
+			switch rapid.IntRange(0, 3).Draw(rt, fmt.Sprintf("%s%dkind", name, i)) {
+			case 0:
+				fmt.Fprintf(&b, "var %s%d = compute(%d)\n\n", name, i, i)
+			case 1:
+				fmt.Fprintf(&b, "// %s%d doc. %s\nvar %s%d = compute(%d)\n\n", name, i, tok(), name, i, i)
+			case 2:
+				fmt.Fprintf(&b, "var %s%d = compute(%d) // %s\n\n", name, i, i, tok())
+			default:
+				fmt.Fprintf(&b, "const %s%d = %d\n\n", name, i, i)
+			}
+		}
+	}
+	pad(rapid.IntRange(0, 3).Draw(rt, "padHead"), "head")
+	run(rapid.IntRange(0, 7).Draw(rt, "runBefore"), "before")
+	fmt.Fprintf(&b, "// keep is untouched. %s\nfunc keep(x bool) {\n\tif x {\n\t\t// deep inside keep %s\n\t\ty() // %s\n\t}\n\t// %s\n}\n\n", tok(), tok(), tok(), tok())
+	if rapid.Bool().Draw(rt, "second") {
+		fmt.Fprintf(&b, "type keepT struct {\n\tA int // %s\n\t// %s\n\tB string\n}\n\n", tok(), tok())
+	}
+	run(rapid.IntRange(0, 7).Draw(rt, "runAfter"), "after")
+	pad(rapid.IntRange(0, 3).Draw(rt, "padTail"), "tail")
+	patch := rapid.SampledFrom([]string{
+		"@@\nvar n identifier\nvar v expression\n@@\n-var n = v\n+func n() any { return v }\n",
+		"@@\nvar n identifier\nvar v expression\n@@\n-var n = v\n+const n = v\n",
+		"@@\nvar n identifier\nvar v expression\n@@\n-var n = v\n",
+		"@@\nvar n identifier\nvar v expression\n@@\n-var n = v\n+type n struct{ V int }\n",
+	}).Draw(rt, "runPatch")
+	if rapid.Bool().Draw(rt, "alsoConst") {
+		patch += "\n@@\nvar n identifier\nvar v expression\n@@\n-const n = v\n+func n() any { return v }\n"
+	}
+	return &c17Case{Patch: patch, File: b.String()}
+}
+
 func TestC17(t *testing.T) {
 	c := coll("C17")
 	checkN(t, func(rt *rapid.T) {
+		if rapid.IntRange(0, 7).Draw(rt, "runsFamily") == 0 {
+			cs := c17Runs(rt)
+			fm, err := format.Source([]byte(cs.File))
+			if err != nil {
+				c.Note("generator:runs-host-unparseable")
+				return
+			}
+			if fm2, err := format.Source(fm); err != nil || string(fm2) != string(fm) {
+				c.Note("generator:gofmt-not-idempotent")
+				return
+			}
+			cs.File = string(fm)
+			sig, msg, nontriv, judged := evalC17(cs)
+			if !judged {
+				c.Note("not-judged")
+				return
+			}
+			c.Case(evid.Hash(cs.Patch, cs.File), nontriv, "family:declaration-runs", fmt.Sprintf("nontrivial:%v", nontriv))
+			if sig != "" {
+				violate(rt, "C17", sig, msg, cs)
+			}
+			return
+		}
 		mcs, why := genModelCase(rt, c17Opts)
 		if mcs == nil {
 			c.Note("generator:" + why)
